@@ -90,15 +90,67 @@ var runStarted atomic.Int64 // unix nanos (real clock) of the current run's star
 
 func startWatchdog() {
 	go func() {
+		var suspect string // goroutines found waiting for a lock at the previous look
 		for {
 			time.Sleep(500 * time.Millisecond)
 			s := runStarted.Load()
-			if s != 0 && time.Now().UnixNano()-s > int64(30*time.Second) {
+			if s == 0 {
+				suspect = ""
+				continue
+			}
+			age := time.Now().UnixNano() - s
+			if age > int64(6*time.Second) {
+				// A run that makes no progress in real time: virtual time only moves when every goroutine
+				// of the bubble is durably blocked, and a goroutine waiting for a sync.Mutex is not. If
+				// code under test holds a lock across a Source/Sink operation (which the simulator may
+				// make arbitrarily slow) and another goroutine of the run needs that lock, the run hangs
+				// exactly like this. Two looks one second apart must show the same waiters.
+				if w := lockWaiters(); w != "" && w == suspect {
+					fmt.Fprintf(os.Stderr, "LOCKHANG %s\n", w)
+					os.Exit(4)
+				} else {
+					suspect = w
+					time.Sleep(time.Second)
+				}
+			}
+			if age > int64(30*time.Second) {
 				fmt.Fprintln(os.Stderr, "WATCHDOG: one simulated run exceeded 30 s of real time")
 				os.Exit(3)
 			}
 		}
 	}()
+}
+
+// lockWaiters lists the goroutines of a synctest bubble that wait for a sync.Mutex / RWMutex inside
+// the code under test, as "function<-caller;..." (empty: none).
+func lockWaiters() string {
+	buf := make([]byte, 4<<20)
+	buf = buf[:runtime.Stack(buf, true)]
+	var out []string
+	for _, g := range strings.Split(string(buf), "\n\n") {
+		head, _, _ := strings.Cut(g, "\n")
+		if !strings.Contains(head, "synctest bubble") || !(strings.Contains(head, "sync.Mutex.Lock") || strings.Contains(head, "sync.RWMutex.")) {
+			continue
+		}
+		var fr []string
+		for _, l := range strings.Split(g, "\n") {
+			if strings.HasPrefix(l, "github.com/DataDog/datadog-traceroute/") {
+				f := strings.TrimPrefix(l, "github.com/DataDog/datadog-traceroute/")
+				if i := strings.LastIndexByte(f, '('); i > 0 {
+					f = f[:i]
+				}
+				fr = append(fr, f)
+				if len(fr) == 3 {
+					break
+				}
+			}
+		}
+		if len(fr) > 0 {
+			out = append(out, strings.Join(fr, "<-"))
+		}
+	}
+	sort.Strings(out)
+	return strings.Join(out, ";")
 }
 
 func execute(t *testing.T, sc *sim.Scenario, keep bool) *sim.Outcome {
